@@ -70,6 +70,61 @@ fn emitted(texts: &[(String, String)]) -> Result<doc::Doc, String> {
     }
 }
 
+// ---------------------------------------------------------------------------
+// Corpus texts (hand-written programs and examples/): trivia at every token boundary
+
+const TRIVIA: [&str; 6] = [" ", "\n", "/* c */ ", "// c\n", "\t", "/* \u{e9}\u{1F609} */"];
+
+/// (name, files with main first, index of the corpus program) of every corpus program.
+fn corpus_files(i: usize) -> Vec<(String, String)> {
+    let p = &crate::tokspace::corpus()[i];
+    let mut files = vec![("main.oal".to_owned(), p.text.clone())];
+    if p.name == "examples/main.oal" {
+        files.push(("module.oal".to_owned(), crate::tokspace::EXAMPLE_MODULE.to_owned()));
+    }
+    files
+}
+
+/// One case: corpus program `i`, boundary after token `k` (where the text already has
+/// trivia): the six trivia tokens inserted there, one at a time.
+fn judge_corpus_boundary(i: usize, k: usize, sink: Option<&mut Sink>) -> Outcome {
+    let p = &crate::tokspace::corpus()[i];
+    let files = corpus_files(i);
+    let seed = match emitted(&files) {
+        Ok(d) => d,
+        Err(_) => return Outcome::ok("seed not accepted (skipped)", None),
+    };
+    if p.toks[k].1.is_empty() {
+        return Outcome::ok("tokens glued at this boundary (skipped)", None);
+    }
+    let mut states = 0u64;
+    for t in TRIVIA {
+        let mut toks = p.toks.clone();
+        toks[k].1 = format!("{} {t}", toks[k].1);
+        let mut all = files.clone();
+        all[0].1 = crate::tokspace::render(&p.prefix, &toks);
+        states += 1;
+        heartbeat();
+        let case = || json!({"corpus": p.name, "boundary": k, "trivia": t, "seed": texts_json(&files)["modules"], "modules": texts_json(&all)["modules"], "rewrites": ["insert trivia"]});
+        match emitted(&all) {
+            Err(why) => {
+                let class: String = why.chars().take_while(|c| *c != '(' && *c != '\n').take(90).collect();
+                return Outcome::bad("rewrite-rejected", format!("rewritten program not accepted | insert trivia (corpus text) | {class}"), format!("{} with {t:?} after token {k} ({:?}): {why}", p.name, p.toks[k].0), case());
+            }
+            Ok(d) => {
+                if let Err(msg) = doc::compare(&d, &seed) {
+                    return Outcome::bad("rewrite-changes-output", format!("rewrite changes the document | insert trivia (corpus text) | {}", c02::diff_class(&msg)), format!("{} with {t:?} after token {k} ({:?}): {msg}", p.name, p.toks[k].0), case());
+                }
+            }
+        }
+    }
+    if let Some(s) = sink {
+        s.count("states", states);
+        s.count("transitions", states);
+    }
+    Outcome::ok("all reachable states equal the seed", Some(hash_of(&(i, k))))
+}
+
 struct Search<'a> {
     seed_doc: &'a doc::Doc,
     states: u64,
@@ -212,6 +267,7 @@ impl Engine for C05 {
                 Phase::new("depth 1 from every fragment seed", json!({"step":1,"depth":1})),
                 Phase::new("depth 2 from every 30th fragment seed", json!({"step":30,"depth":2})),
                 Phase::new("depth 1 from every 2nd program of the kind-agnostic space (<= 2 constructors x 27 contexts)", json!({"step":2,"depth":1,"agnostic":true})),
+                Phase::new("corpus texts (46 hand-written programs, examples/): six trivia tokens at every token boundary", json!({"corpus":true})),
             ],
             Tier::Thorough => vec![
                 Phase::new("depth 1 from every fragment seed", json!({"step":1,"depth":1})),
@@ -219,10 +275,26 @@ impl Engine for C05 {
                 Phase::new("depth 3 from every 400th fragment seed", json!({"step":400,"depth":3})),
                 Phase::new("depth 1 from every program of the kind-agnostic space (<= 2 constructors x 27 contexts)", json!({"step":1,"depth":1,"agnostic":true})),
                 Phase::new("depth 2 from every 10th program of the kind-agnostic space", json!({"step":10,"depth":2,"agnostic":true})),
+                Phase::new("corpus texts (46 hand-written programs, examples/): six trivia tokens at every token boundary", json!({"corpus":true})),
             ],
         }
     }
     fn run_phase(&self, phase: &Phase, sink: &mut Sink) {
+        if phase.param["corpus"].as_bool() == Some(true) {
+            let mut idx = 0u64;
+            for (i, p) in crate::tokspace::corpus().iter().enumerate() {
+                for k in 0..p.toks.len() {
+                    if sink.mine(idx) {
+                        if sink.expired() {
+                            return;
+                        }
+                        sink.visit(idx, || json!({"corpus_index": i, "corpus": p.name, "boundary": k}), |s| judge_corpus_boundary(i, k, Some(s)));
+                    }
+                    idx += 1;
+                }
+            }
+            return;
+        }
         let step = phase.param["step"].as_u64().unwrap() as usize;
         let depth = phase.param["depth"].as_u64().unwrap() as usize;
         let seeds = if phase.param["agnostic"].as_bool() == Some(true) { agnostic_seeds(step) } else { seeds(step) };
@@ -257,6 +329,9 @@ impl Engine for C05 {
                     Err(m) => Outcome::bad("rewrite-changes-output", "rewrite changes the document".into(), m, case.clone()),
                 },
             };
+        }
+        if let (Some(i), Some(k)) = (case["corpus_index"].as_u64(), case["boundary"].as_u64()) {
+            return judge_corpus_boundary(i as usize, k as usize, None);
         }
         match serde_json::from_value::<Program>(case["seed_ast"].clone()) {
             Ok(p) => judge_seed(&p, case["depth"].as_u64().unwrap_or(1) as usize, None),
